@@ -124,9 +124,9 @@ def build(c, white_clause=False):
             "int": amp * a * b / (hdr["BMAJ"] * hdr["BMIN"]), "beam": beam, "pix": (px, py)}
 
 
-def run_finder(path, rms, bkg, docov, cores=1):
+def run_finder(path, rms, bkg, docov, cores=1, rep=None):
     sf = SourceFinder()
-    return sf.find_sources_in_image(path, rms=rms, bkg=bkg, innerclip=5, outerclip=4, cores=cores, docov=docov)
+    return sf.find_sources_in_image(path, rms=rms, bkg=bkg, innerclip=5, outerclip=4, cores=cores, docov=docov, **skyimg.cube_kw(rep))
 
 
 def stratum(c, B):
@@ -173,7 +173,7 @@ def check_noise_free(c):
         path = os.path.join(d, "im.fits")
         single = c.get("bitpix", -64) == -32
         skyimg.write_fits(path, img + (bkg or 0.0), B["hdr"], dtype=np.float32 if single else np.float64, rep=c.get("rep"))
-        comps = run_finder(path, B["rms"], bkg if bkg is not None else None, c["docov"])
+        comps = run_finder(path, B["rms"], bkg if bkg is not None else None, c["docov"], rep=c.get("rep"))
         cli_rows = None
         if c.get("cli"):
             # the command line (aegean IMAGE --table) must report the same component
@@ -252,9 +252,9 @@ def one_noisy_run(c, B, seed, d):
     path = os.path.join(d, "im_%d.fits" % (seed % 100000))
     skyimg.write_fits(path, img + noise, B["hdr"], rep=c.get("rep"))
     if c["internal"]:
-        comps = run_finder(path, None, None, c["docov"], cores=c["cores"])
+        comps = run_finder(path, None, None, c["docov"], cores=c["cores"], rep=c.get("rep"))
     else:
-        comps = run_finder(path, sigma, 0.0, c["docov"])
+        comps = run_finder(path, sigma, 0.0, c["docov"], rep=c.get("rep"))
     # the injected source: the component nearest to it (noise peaks elsewhere in the image are not the subject)
     near = [k for k in comps if float(refs.vsep(B["src"]["ra"], B["src"]["dec"], k.ra, k.dec)) / B["s"] <
             max(3.0, B["src"]["a"] / B["s"])]
